@@ -459,7 +459,14 @@ def setup(ctx):
 
 def run(ctx):
   setup(ctx)
-  n = 2000 if ctx.tier == "quick" else 30000
+  ctx.notes.append(
+      "the model is the REPAIRED allocation (proposed fix /verif/proposed_fixes/c17-reallocation-budget.diff: "
+      "clamp every proportional allocation to [0, remaining resource], count every increment of the "
+      "leftover pass).  On a tree without the fix the check reports impl-violates (defect D5: budget "
+      "exceeded, ranks < 1, internal AssertionError) with the concrete instance; the unrepaired loop is "
+      "modelled as well (realloc_sorted false ..., theorem leftover_pass_budget_refuted) and agrees bit for "
+      "bit with the unrepaired implementation")
+  n = 2000 if ctx.tier == "quick" else 20000
   cases = load_corpus()
   ncorpus = len(cases)
   for i in range(n):
